@@ -51,6 +51,7 @@ type mcfg struct {
 	Auth    bool
 	Msize   uint32
 	ErrKind string // kind of error value the implementation's auth callbacks return
+	Iounit  uint32 // the iounit the implementation advertises in Ropen / Rcreate
 }
 
 // mevent is one request of the history alphabet.
@@ -427,6 +428,7 @@ func runHistory(c mcfg, evs []mevent, probeFids []uint32, probeLast int) *histOb
 	body := func() {
 		fs := NewFS()
 		fs.ErrKind = c.ErrKind
+		fs.Iounit = c.Iounit
 		ho.FS = fs
 		h := NewSrvH(fs, SrvOpt{Msize: c.Msize, Dotu: c.Dotu, Auth: c.Auth})
 		cl := h.Connect()
